@@ -63,7 +63,12 @@ fn random_leaf_shape(g: &mut Gen, d: usize, max_product: usize) -> Shape {
 }
 
 fn leaf_term(g: &mut Gen, shape: Shape) -> Term {
-    let via = if g.rng.chance(1, 4) { " via=leaf+box" } else { "" };
+    let via = match g.rng.below(8) {
+        0 | 1 => " via=leaf+box",
+        2 => " via=t_view_owned",
+        3 => " via=leaf+mutview",
+        _ => "",
+    };
     Term { lines: vec![(format!("leaf ? {}{}", show(&shape), via), Some(lens(&shape)))], shape }
 }
 
@@ -108,7 +113,20 @@ fn random_range(g: &mut Gen, l: usize) -> (usize, usize, &'static str) {
 }
 
 fn range_via(g: &mut Gen) -> &'static str {
-    *g.rng.pick(&["from", "from_all", "tuple", "array", "stdrange", "from+box"])
+    *g.rng.pick(&[
+        "from", "from_all", "tuple", "array", "stdrange", "from+box", "tv_owned", "tv_mut", "t_mut", "t_owned",
+        "from+mutview", "tv_owned+box",
+    ])
+}
+
+/// who is asked for a reversal / selection / expansion / reordering: the constructor, or the
+/// convenience methods of TensorView and (right after a leaf) of Tensor
+fn receiver_via(g: &mut Gen) -> &'static str {
+    *g.rng.pick(&["", "", "tv_owned", "tv_mut", "t_mut", "t_owned", "x+box", "x+mutview", "tv_mut+box"])
+}
+
+fn with_via(line: String, via: &str) -> String {
+    if via.is_empty() { line } else { format!("{} via={}", line, via) }
 }
 
 /// Applies one adaptor of `kind` to the term (valid parameters most of the time).
@@ -175,7 +193,8 @@ fn apply(g: &mut Gen, mut t: Term, kind: &str) -> Term {
             }
             let parts: Vec<String> = chosen.iter().map(|&dim| format!("{}:{}", shape[dim].0, g.rng.below(shape[dim].1))).collect();
             t.shape = (0..d).filter(|i| !chosen.contains(i)).map(|i| shape[i].clone()).collect();
-            t.lines.push((format!("index {}{}", join(&parts), if g.rng.chance(1, 5) { " via=x+box" } else { "" }), Some(lens(&t.shape))));
+            let via = receiver_via(g);
+            t.lines.push((with_via(format!("index {}", join(&parts)), via), Some(lens(&t.shape))));
         }
         "expand" => {
             let k = g.rng.range(1, (6 - d).min(3));
@@ -202,7 +221,8 @@ fn apply(g: &mut Gen, mut t: Term, kind: &str) -> Term {
             }
             let parts: Vec<String> = extra.iter().map(|e| format!("{}:{}", e.0, e.1)).collect();
             t.shape = new_shape;
-            t.lines.push((format!("expand {}", join(&parts)), Some(lens(&t.shape))));
+            let via = receiver_via(g);
+            t.lines.push((with_via(format!("expand {}", join(&parts)), via), Some(lens(&t.shape))));
         }
         "matrixof" => {
             // a 2-dimensional view as a matrix (row major, column major or neither) as a tensor
@@ -257,7 +277,8 @@ fn apply(g: &mut Gen, mut t: Term, kind: &str) -> Term {
             let subset: Vec<String> = shape.iter().filter(|_| g.rng.chance(1, 2)).map(|x| x.0.clone()).collect();
             let mut subset = subset;
             g.rng.shuffle(&mut subset);
-            t.lines.push((format!("reverse {}", join(&subset)), Some(lens(&t.shape))));
+            let via = receiver_via(g);
+            t.lines.push((with_via(format!("reverse {}", join(&subset)), via), Some(lens(&t.shape))));
         }
         "access" | "transpose" => {
             let mut perm: Vec<usize> = (0..d).collect();
@@ -272,7 +293,13 @@ fn apply(g: &mut Gen, mut t: Term, kind: &str) -> Term {
             } else {
                 (0..d).map(|i| (shape[i].0.clone(), shape[perm[i]].1)).collect()
             };
-            let via = if g.rng.chance(1, 2) { " via=try_from" } else { "" };
+            let via = if kind == "access" && g.rng.chance(1, 2) {
+                format!(" via={}", *g.rng.pick(&["tv_owned", "tv_mut", "t_owned", "t_mut", "tv_owned+mutview"]))
+            } else if g.rng.chance(1, 2) {
+                " via=try_from".to_string()
+            } else {
+                String::new()
+            };
             t.lines.push((format!("{} {}{}", kind, join(&req), via), Some(lens(&t.shape))));
         }
         _ => unreachable!(),
@@ -420,6 +447,19 @@ fn probes(g: &mut Gen, ls: &[usize], full: bool) {
     let d = ls.len();
     g.op("shape".into());
     g.op("get_names".into());
+    let which = if g.rng.chance(1, 2) { "ref" } else { "owned" };
+    g.op(format!("sources via={}", which));
+    if full || g.rng.chance(1, 3) {
+        g.op("sources via=owned".into());
+        g.op("sources via=ref".into());
+    }
+    let how = if g.rng.chance(1, 2) { "display" } else { "display via=access" };
+    g.op(how.into());
+    for n in ["a", "b", "x", "row", "zz"] {
+        if full || g.rng.chance(1, 3) {
+            g.op(format!("length_of {}", n));
+        }
+    }
     g.op("layout".into());
     g.op("memorder".into());
     let product: usize = ls.iter().product();
@@ -568,7 +608,8 @@ fn exhaustive(g: &mut Gen) {
             for i in 0..=leaf[dim].1 {
                 let ok = i < leaf[dim].1;
                 let shape: Shape = (0..d).filter(|&k| k != dim).map(|k| base.shape[k].clone()).collect();
-                let t = with_line(&base, format!("index {}:{}", leaf[dim].0, i), if ok { Some(shape) } else { None });
+                let via = receiver_via(g);
+                let t = with_line(&base, with_via(format!("index {}:{}", leaf[dim].0, i), via), if ok { Some(shape) } else { None });
                 g.count("exhaustive.index");
                 emit(g, &t, true, false);
             }
@@ -591,7 +632,8 @@ fn exhaustive(g: &mut Gen) {
             if ok {
                 shape.insert(p, ("x".into(), 1));
             }
-            let t = with_line(&base, format!("expand {}:x", p), if ok { Some(shape) } else { None });
+            let via = receiver_via(g);
+            let t = with_line(&base, with_via(format!("expand {}:x", p), via), if ok { Some(shape) } else { None });
             g.count("exhaustive.expand1");
             emit(g, &t, true, false);
             for q in 0..=d {
@@ -668,6 +710,11 @@ fn exhaustive(g: &mut Gen) {
         // every subset of reversed dimensions
         for bits in 0..(1usize << d) {
             let subset: Vec<String> = (0..d).filter(|k| bits >> k & 1 == 1).map(|k| leaf[k].0.to_string()).collect();
+            for via in ["", "tv_owned", "tv_mut", "t_mut", "t_owned"] {
+                let t = with_line(&base, with_via(format!("reverse {}", join(&subset)), via), Some(base.shape.clone()));
+                g.count("exhaustive.reverse");
+                emit(g, &t, true, false);
+            }
             let t = with_line(&base, format!("reverse {}", join(&subset)), Some(base.shape.clone()));
             g.count("exhaustive.reverse");
             emit(g, &t, true, false);
@@ -677,7 +724,9 @@ fn exhaustive(g: &mut Gen) {
             let req: Vec<String> = perm.iter().map(|&p| leaf[p].0.to_string()).collect();
             let a: Shape = perm.iter().map(|&p| base.shape[p].clone()).collect();
             let tr: Shape = (0..d).map(|i| (base.shape[i].0.clone(), base.shape[perm[i]].1)).collect();
-            emit(g, &with_line(&base, format!("access {}", join(&req)), Some(a)), true, false);
+            for via in ["", "tv_owned", "tv_mut", "t_mut", "t_owned"] {
+                emit(g, &with_line(&base, with_via(format!("access {}", join(&req)), via), Some(a.clone())), true, false);
+            }
             emit(g, &with_line(&base, format!("transpose {}", join(&req)), Some(tr.clone())), true, false);
             // a transposition renamed and accessed again: layouts through three adaptors
             let renamed: Shape = (0..d).map(|i| (NAMES[8 + i % 6].to_string(), tr[i].1)).collect();
